@@ -84,8 +84,21 @@ def hint_mutations(p, sig, rng):
 
 
 def gen(tier, rng):
+    """one worker process per parameter set (the near-miss searches dominate the run time)"""
+    import random
+    from concurrent.futures import ProcessPoolExecutor
+    jobs = [(tier, rng.getrandbits(64), cp) for cp in ALL]
+    with ProcessPoolExecutor(max_workers=6) as ex:
+        parts = list(ex.map(_gen_set, jobs))
+    return [c for part in parts for c in part]
+
+
+def _gen_set(job):
+    import random
+    tier, seed, cp = job
+    rng = random.Random(seed)
     out = []
-    for cp in ALL:
+    for cp in [cp]:
         p = Par(cp)
         pk, sk = keygen(cp, bytes(rng.randrange(256) for _ in range(32)))
         msgs = [bytes(rng.randrange(256) for _ in range(n)) for n in (0, 33, 150)]
